@@ -159,7 +159,7 @@ def check(ctx):
             ls = s.loops[loops[0]['loop']]
             where = '%s:vegas_iteration' % ls.node.where()
             v = ('hcall', 'hep::accumulator::invoke', e['obj']) + tuple(e['args'])
-            u = ls.updates.get('adjustment_data')
+            u = upd_by_final(ls, fld(s.ret, 'adjustment_data_'))
             if u is None or not (isinstance(u['next'], tuple) and u['next'][0] == 'vscatter'):
                 raise AnalysisBroken('adjustment data update of vegas_iteration not recognised')
             cells = u['next'][5]
@@ -197,7 +197,7 @@ def check(ctx):
             ls = s.loops[loops[0]['loop']]
             where = '%s:multi_channel_iteration' % ls.node.where()
             v = ('hcall', 'hep::accumulator::invoke', e['obj']) + tuple(e['args'])
-            u = ls.updates.get('adjustment_data')
+            u = upd_by_final(ls, fld(s.ret, 'adjustment_data_'))
             if u is None:
                 raise AnalysisBroken('adjustment data update of multi_channel_iteration not found')
             env0 = fp.Env({v: fp.ZERO})
